@@ -6,7 +6,7 @@
    the same cost (guard theorem of Proofs/MachineGuard.v). Run level: every run that succeeds on
    the aware dialect succeeds on the hiding dialect with the same cost and value. *)
 From Coq Require Import Lia ZifyBool ZifyN ZifyNat.
-From Clvm Require Import Model.Machine Model.Dialect Model.U64 Proofs.MachineBasics Proofs.MachineTotal
+From Clvm Require Import Model.Machine Model.Dialect Model.U64 Proofs.MachineBasics Proofs.MachineStackCounts
   Proofs.MachineFrame Proofs.MachineGuard Proofs.CryptoWrap2 Proofs.UnknownProofs Proofs.BytesLemmas.
 Open Scope N_scope.
 
